@@ -120,6 +120,19 @@ IsGroupOps(D, H) ==
 OrbitOf(c, H, a) == {ImgIdx(c, g[1], g[2], a) : g \in H}
 StabOf(c, H, a) == {g \in H : PosEq(c.den, ActOn(g[1], g[2], c.atm[a].num), c.atm[a].num)}
 
+(* what the definition says about a cell: the operations (in some order), the permutation of the atoms by   *)
+(* each (0-based image indices, as phonopy counts), the smallest index of every atom's orbit                *)
+SeqOfSet(T) == LET RECURSIVE F(_)
+                   F(R) == IF R = {} THEN <<>> ELSE LET x == CHOOSE x \in R : TRUE IN <<x>> \o F(R \ {x})
+               IN F(T)
+SoundBoxOf(G) == CHOOSE b \in 1..6 : BoxSound(G, b) /\ \A b2 \in 1..(b - 1) : ~BoxSound(G, b2)
+Expected(c) ==
+  LET H == MSG(c, SoundBoxOf(c.gram))
+      q == SeqOfSet(H)
+  IN [ops |-> q,
+      perms |-> [k \in 1..Len(q) |-> [a \in 1..NAt(c) |-> ImgIdx(c, q[k][1], q[k][2], a) - 1]],
+      reps |-> [a \in 1..NAt(c) |-> MinOf(OrbitOf(c, H, a)) - 1]]
+
 (* pure translations of the cell that keep the labels of a supercell-to-primitive map (is_symmetry=False *)
 (* with s2p_map: "pure translations inside cell")                                                        *)
 LabelTranslations(c, lab) ==
